@@ -6,7 +6,7 @@ import itertools
 from hypothesis import strategies as st
 
 from .. import vlog
-from ..core import Failure, drive, drive_enum
+from ..core import peek, Failure, drive, drive_enum
 
 ID = "C01"
 LEVEL = "exploration"
@@ -242,7 +242,7 @@ def check_case(case, rec):
     if not fails and ran:
         memo = {}
         for i in range(n):
-            r = prog.commands[name(i)]._result
+            r = peek(prog.commands[name(i)])
             if r != expected_term(nodes, i, memo):
                 fails.append(Failure("wrong_result|%s" % sc, "%s = %r, expected %r\n%s" % (
                     name(i), r, expected_term(nodes, i, memo), source_text(nodes, case["order"]))))
